@@ -3,6 +3,9 @@
 // file, You can obtain one at https://mozilla.org/MPL/2.0/.
 
 use color_eyre::config::HookBuilder;
+#[cfg(rink_verif_sim)]
+use simkit::shim::child::{exit, stdin, stdout, Instant};
+#[cfg(not(rink_verif_sim))]
 use std::{
     alloc::GlobalAlloc,
     io::{stdin, stdout},
@@ -10,6 +13,12 @@ use std::{
     process::exit,
     sync::{Arc, Mutex},
     time::Instant,
+};
+#[cfg(rink_verif_sim)]
+use std::{
+    alloc::GlobalAlloc,
+    panic,
+    sync::{Arc, Mutex},
 };
 
 use crate::{
